@@ -64,7 +64,7 @@ def v_eq(a, b):
     if ka != kb:
         return False
     if ka == "num":
-        return float(a) == float(b)
+        return a == b          # Python compares int and float exactly (no rounding of big integers through float())
     return a == b
 
 
@@ -249,7 +249,12 @@ def quals_of(e, acc):
 def neighbours(v):
     k = kind_of(v)
     if k == "num":
-        return [v, v + 1, v - 1, float(v) + 0.5]
+        out = [v, v + 1, v - 1]
+        if isinstance(v, int) and abs(v) < 2 ** 52:
+            out.append(v + 0.5)
+        elif isinstance(v, float):
+            out += [v + 0.5, v * 2 + 1]
+        return out
     if k == "bool":
         return [True, False]
     if k == "str":
